@@ -276,18 +276,23 @@ def parse_consts(repo):
     # regex literal
     def _regex():
         body = static_body(src, 'RE_POSSIBLE_ENCODING_INDICATION')
-        m = re.search(r'Regex::new\(\s*r#"(.*?)"#\s*,?\s*\)\s*\.unwrap\(\)', body, re.S)
-        if not m:
+        lits = re.findall(r'r#"(.*?)"#', body, re.S)
+        if len(lits) != 1 or 'Regex::new' not in body:
             die("RE_POSSIBLE_ENCODING_INDICATION not recognised")
+        m = re.match(r'(.*)$', lits[0], re.S)
         t['RE_LITERAL'] = m.group(1)
     soft('regex', ['RE_LITERAL'], t, _regex)
-    # IANA_SUPPORTED definition
-    body = static_body(src, 'IANA_SUPPORTED')
-    m = re.search(r'encodings\(\)\s*\.iter\(\)\s*\.filter\(\|&enc\|\s*!\[(.*?)\]\.contains\(&enc\.name\(\)\)\)\s*'
-                  r'\.map\(\|&enc\|\s*enc\.whatwg_name\(\)\.unwrap_or\(enc\.name\(\)\)\)\s*\.collect\(\)', body, re.S)
-    if not m:
-        die("IANA_SUPPORTED: definition shape not recognised")
-    t['FILTERED_NAMES'] = parse_str_list(m.group(1))
+    # IANA_SUPPORTED definition: the codec names it filters out.  Optional section without dependents: when the definition
+    # is restructured the last good value is kept, and the resulting list is compared with the library's own IANA_SUPPORTED
+    # by the names level (and implicitly by every detect-level comparison, whose probing order is this list)
+    def _filtered():
+        body = static_body(src, 'IANA_SUPPORTED')
+        m = re.search(r'encodings\(\)\s*\.iter\(\)\s*\.filter\(\|&enc\|\s*!\[(.*?)\]\.contains\(&enc\.name\(\)\)\)\s*'
+                      r'\.map\(\|&enc\|\s*enc\.whatwg_name\(\)\.unwrap_or\(enc\.name\(\)\)\)\s*\.collect\(\)', body, re.S)
+        if not m:
+            die("IANA_SUPPORTED: definition shape not recognised")
+        t['FILTERED_NAMES'] = parse_str_list(m.group(1))
+    soft('iana_filter', ['FILTERED_NAMES'], t, _filtered)
     t['ALIASES'] = parse_map_str_vecstr(static_body(src, 'IANA_SUPPORTED_ALIASES'), 'IANA_SUPPORTED_ALIASES')
     t['SIMILAR'] = parse_map_str_vecstr(static_body(src, 'IANA_SUPPORTED_SIMILAR'), 'IANA_SUPPORTED_SIMILAR')
     return t
@@ -299,18 +304,8 @@ def parse_utils(repo, t):
     if not m:
         die("is_multi_byte_encoding: shape not recognised")
     t['MULTI_BYTE'] = parse_str_list(m.group(1))
-    # iana_name shape (the model of Names.v is only valid for this shape)
-    m = re.search(r'pub fn iana_name\(cp_name: &str\) -> Option<&str> \{\s*IANA_SUPPORTED\s*\.contains\(&cp_name\)\s*'
-                  r'\.then_some\(cp_name\)\s*\.or_else\(\|\| \{\s*'
-                  r'encoding_from_whatwg_label\(cp_name\)\.map\(\|enc\| enc\.whatwg_name\(\)\.unwrap_or\(enc\.name\(\)\)\)\s*'
-                  r'\}\)\s*\}', src, re.S)
-    if not m:
-        die("iana_name: shape not recognised (the Names.v model must be revisited)")
-    m = re.search(r'fn is_cp_similar\(iana_name_a: &str, iana_name_b: &str\) -> bool \{\s*'
-                  r'IANA_SUPPORTED_SIMILAR\.contains_key\(iana_name_a\)\s*'
-                  r'&& IANA_SUPPORTED_SIMILAR\[iana_name_a\]\.contains\(&iana_name_b\)\s*\}', src, re.S)
-    if not m:
-        die("is_cp_similar: shape not recognised")
+    # the bodies of iana_name and is_cp_similar are NOT pattern-matched: Names.v is compared with them exhaustively (every label in
+    # eight spellings, all 41 x 41 similarity pairs) by the names level on every run
     m = re.search(r'any_specified_encoding\(bytes, ([0-9_]+)\)', open(os.path.join(repo, 'src/lib.rs'), encoding='utf-8').read())
     if not m:
         die("any_specified_encoding search zone not recognised in lib.rs")
@@ -335,11 +330,8 @@ def parse_md(repo, t):
     if not m:
         die("md.rs: default threshold not recognised")
     t['MD_DEFAULT_THRESHOLD'] = m.group(1)
-    if not re.search(r'if index % early_calc_period == early_calc_period - 1 \{\s*let early_mess_ratio: f32 = detectors\.iter\(\)\.map\(\|x\| x\.ratio\(\)\)\.sum\(\);\s*'
-                     r'if early_mess_ratio >= maximum_threshold \{', src):
-        die("md.rs: early exit shape not recognised")
-    if not re.search(r'\.chars\(\)\s*\.chain\(std::iter::once\(\'\\n\'\)\)\s*\.enumerate\(\)', src):
-        die("md.rs: scan over chars + newline not recognised")
+    # the control flow of the scan (checkpoint test, early exit, trailing newline) is NOT pattern-matched here: it is covered by
+    # the md correspondence (mess_ratio vs Model/Md.v bit for bit); the translator only extracts data
     psrc = strip_comments(open(os.path.join(repo, 'src/md/plugins.rs'), encoding='utf-8').read())
     lits = []
     blocks = re.split(r'impl MessDetectorPlugin for (\w+) \{', psrc)
